@@ -171,6 +171,20 @@ def run(ctx):
         (["-p", "pkg", "--tags"], "flag without value"),
         (["-p", "", "in/s.json"], "empty package"),
     ]
+    # list-valued flags with empty or blank elements: not necessarily malformed - either outcome is fine, as long as it is a clean one
+    oddflags = [
+        (["-p", "pkg", "--yaml-extension", "yml,", "in/s.json"], "list flag with an empty element"),
+        (["-p", "pkg", "--yaml-extension", "yml,,yaml", "in/s.json"], "list flag with an empty element"),
+        (["-p", "pkg", "--yaml-extension", ",", "in/s.json"], "list flag with an empty element"),
+        (["-p", "pkg", "--yaml-extension", " ", "in/s.json"], "list flag with a blank element"),
+        (["-p", "pkg", "--resolve-extension", "json,", "in/s.json"], "list flag with an empty element"),
+        (["-p", "pkg", "--resolve-extension", " ,", "in/s.json"], "list flag with a blank element"),
+        (["-p", "pkg", "--tags", "json,,yaml", "in/s.json"], "list flag with an empty element"),
+        (["-p", "pkg", "--capitalization", ",ID,", "in/s.json"], "list flag with an empty element"),
+    ]
+    for i, (argv, what) in enumerate(oddflags):
+        runs.append(Run("of%d" % i, {"in/s.json": good}, argv))
+        meta.append(("odd-flags", what, (), argv, "stdout"))
     for i, (argv, what) in enumerate(flagcases):
         runs.append(Run("f%d" % i, {"in/s.json": good, "out/gen.go": "ORIGINAL\n"}, argv))
         meta.append(("flags", what, (), argv, "file"))
@@ -230,6 +244,18 @@ def run(ctx):
             continue
         case = {"kind": "cli", "family": fam, "what": name, "position": list(path), "files": {k: (v if isinstance(v, str) else v.decode("latin-1")) for k, v in r.files.items()},
                 "argv": r.argv}
+        if fam == "odd-flags":
+            pb = None
+            if r.timed_out or r.panicked:
+                pb = "the tool panicked or hung"
+            elif r.status == 0 and not r.stdout.startswith(b"// Code generated"):
+                pb = "status 0 without the generated file on stdout"
+            elif r.status != 0 and (r.stdout or r.created or not r.stderr.strip()):
+                pb = "status %s with output on stdout / files created / no diagnostic" % r.status
+            if pb:
+                ctx.violation("oracle", dict(case, run=r.describe()), "%s (%s): %s" % (name, " ".join(r.argv), pb))
+                nv += 1
+            continue
         if fam in ("injection", "garbage-json", "garbage-yaml", "flags", "multi-input"):
             if fam == "garbage-json" and r.status == 0:
                 # a JSON value that is not an object: accepted by the decoder as "no schema": the property asks for a clean outcome either way
